@@ -594,7 +594,10 @@ def check(run):
         bad = dict(case)
         bad["line"] = case["line"] + 1
         r1 = compare(bad, E, text, o) is not None
-        o2 = observe(nl + text, "string", work)          # an unaccounted line before everything
+        if not mism:
+            o2 = observe(nl + text, "string", work)          # an unaccounted line before everything
+        else:       # on a tree with violations: the same comparer on a synthetic shifted observation
+            o2 = dict(o, lineno=o["lineno"] + 1, source_ok=True)
         r2 = compare(case, E, nl + text, o2) is not None
         bad = dict(case)
         bad["cols"] = [x + 1 for x in case["cols"]] if len(case["cols"]) == 1 else [max(case["cols"]) + 1]
